@@ -127,9 +127,9 @@ def fieldsOfGo : Nat → List Mav.Msg.GoField → Option (List SField)
 /-- definitions in the property's domain: name `Message…`, extensions after base fields,
     array lengths 1..255, total ≤ 255 bytes -/
 def ofGo (s : Mav.Msg.GoStruct) : Option SDef := do
-  if !s.name.startsWith "Message" then none
+  if !Mav.Msg.hasMsgPrefix s.name then none
   let fs ← fieldsOfGo 0 s.fields
-  let d : SDef := { name := snakeUpper (s.name.drop 7).toString, fields := fs }
+  let d : SDef := { name := snakeUpper (Mav.Msg.msgSuffix s.name), fields := fs }
   let extAfterBase := (fs.dropWhile (!·.ext)).all (·.ext)
   let arrOk := fs.all (fun f => match f.arr with | some n => 1 ≤ n && n ≤ 255 | none => true)
   if extAfterBase && arrOk && sizeExt d ≤ 255 then some d else none
